@@ -448,6 +448,8 @@ fn main() {
                 rel,
             ],
         );
+        // Object's Debug prints string bytes raw: keep the verdict on one line
+        let verdict: String = verdict.chars().map(|c| if c.is_control() { '?' } else { c }).collect();
         (res, verdict)
     });
 }
